@@ -1,0 +1,661 @@
+//go:build verif
+// +build verif
+
+package cmd
+
+// Entry points for the verification harness (/verif). This file only
+// adds code: it exports thin wrappers around unexported functions so
+// that an external harness can drive the real implementation
+// in-process. It is compiled only with `-tags verif`.
+
+import (
+	"bytes"
+	"context"
+	"fmt"
+	"io/ioutil"
+	"os"
+	"path/filepath"
+	"sort"
+	"strings"
+	"sync"
+	"time"
+
+	"github.com/knz/shakespeare/pkg/crdb/log"
+	"github.com/knz/shakespeare/pkg/crdb/stop"
+)
+
+// VerifFsm is the dump of one modality automaton.
+type VerifFsm struct {
+	Name       string
+	StartState int
+	Edges      [][]int
+	StateNames []string
+	Labels     []string
+}
+
+// VerifAutomata dumps the modality table as the running code holds it.
+func VerifAutomata() []VerifFsm {
+	var res []VerifFsm
+	for name, f := range automata {
+		v := VerifFsm{Name: name, StartState: f.startState,
+			StateNames: append([]string(nil), f.stateNames...),
+			Labels:     append([]string(nil), f.labels...)}
+		for _, e := range f.edges {
+			v.Edges = append(v.Edges, append([]int(nil), e...))
+		}
+		res = append(res, v)
+	}
+	sort.Slice(res, func(i, j int) bool { return res[i].Name < res[j].Name })
+	return res
+}
+
+// VerifParseArgs describes one configuration load.
+type VerifParseArgs struct {
+	// File is the path of the main configuration file (already on disk).
+	File string
+	// Text, if File is empty, is parsed from memory under the name "<verif>".
+	Text string
+	// IncludePath is the -I list ("." is appended like initArgs does).
+	IncludePath []string
+	// Defines is the -D list.
+	Defines []string
+	// ExtraScript / ExtraInterpretation are the -s / -r lists.
+	ExtraScript         []string
+	ExtraInterpretation []string
+	// SkipComments selects printCfg(skipComments, skipVer).
+	SkipComments bool
+}
+
+// VerifParseResult is what a load produced.
+type VerifParseResult struct {
+	Ok       bool
+	Printed  string
+	Steps    string
+	Play     []VerifAct
+	Story    []string
+	Err      string
+	ErrFull  string
+	Panicked bool
+	Panic    string
+}
+
+// VerifAct is one compiled act.
+type VerifAct struct {
+	Scenes []VerifScene
+}
+
+// VerifScene is one compiled scene.
+type VerifScene struct {
+	WaitUntilNs int64
+	Lines       []VerifLine
+}
+
+// VerifLine is one concurrent line of a scene.
+type VerifLine struct {
+	Actor string
+	Steps []VerifStep
+}
+
+// VerifStep is one step of a line.
+type VerifStep struct {
+	Mood   bool
+	Action string
+	FailOk bool
+}
+
+func verifLoad(a VerifParseArgs) (cfg *config, err error) {
+	ctx := context.Background()
+	cfg = newConfig()
+	cfg.defines = a.Defines
+	cfg.includePath = append([]string(nil), a.IncludePath...)
+	if err := cfg.parseDefines(); err != nil {
+		return cfg, err
+	}
+	if !hasLocalDir(cfg.includePath) {
+		cfg.includePath = append(cfg.includePath, ".")
+	}
+	var rd *reader
+	if a.File != "" {
+		rd, err = newReader(ctx, a.File, cfg.includePath)
+		if err != nil {
+			return cfg, err
+		}
+	} else {
+		rd, _ = newReaderFromString("<verif>", a.Text)
+	}
+	err = cfg.parseCfg(ctx, rd)
+	rd.close()
+	if err != nil {
+		return cfg, err
+	}
+	if len(a.ExtraScript) > 0 {
+		var b bytes.Buffer
+		fmt.Fprintln(&b, "script")
+		for _, s := range a.ExtraScript {
+			fmt.Fprintln(&b, s)
+		}
+		fmt.Fprintln(&b, "end")
+		rd, _ := newReaderFromString("<command line>", b.String())
+		if err := cfg.parseCfg(ctx, rd); err != nil {
+			return cfg, err
+		}
+	}
+	if len(a.ExtraInterpretation) > 0 {
+		var b bytes.Buffer
+		fmt.Fprintln(&b, "interpretation")
+		for _, s := range a.ExtraInterpretation {
+			fmt.Fprintln(&b, s)
+		}
+		fmt.Fprintln(&b, "end")
+		rd, _ := newReaderFromString("<command line>", b.String())
+		if err := cfg.parseCfg(ctx, rd); err != nil {
+			return cfg, err
+		}
+	}
+	if err := cfg.compileV2(); err != nil {
+		return cfg, err
+	}
+	return cfg, nil
+}
+
+func verifDumpPlay(cfg *config) []VerifAct {
+	var res []VerifAct
+	for _, act := range cfg.play {
+		va := VerifAct{}
+		for _, sc := range act {
+			vs := VerifScene{WaitUntilNs: int64(sc.waitUntil)}
+			for _, l := range sc.concurrentLines {
+				vl := VerifLine{}
+				if l.actor != nil {
+					vl.Actor = l.actor.name
+				}
+				for _, st := range l.steps {
+					vl.Steps = append(vl.Steps, VerifStep{Mood: st.typ == stepAmbiance, Action: st.action, FailOk: st.failOk})
+				}
+				vs.Lines = append(vs.Lines, vl)
+			}
+			va.Scenes = append(va.Scenes, vs)
+		}
+		res = append(res, va)
+	}
+	return res
+}
+
+// VerifParse loads a configuration the way Run does (parse, -s, -r,
+// compile) and returns the printed configuration, the compiled play
+// and the rendered error, recovering from panics.
+func VerifParse(a VerifParseArgs) (res VerifParseResult) {
+	defer func() {
+		if r := recover(); r != nil {
+			res.Ok = false
+			res.Panicked = true
+			res.Panic = fmt.Sprintf("%v", r)
+		}
+	}()
+	cfg, err := verifLoad(a)
+	if err != nil {
+		var b bytes.Buffer
+		RenderError(&b, err)
+		res.ErrFull = b.String()
+		res.Err = fmt.Sprintf("%v", err)
+		return res
+	}
+	res.Ok = true
+	var b bytes.Buffer
+	cfg.printCfg(&b, a.SkipComments, a.SkipComments, false)
+	res.Printed = b.String()
+	b.Reset()
+	cfg.printSteps(&b, false)
+	res.Steps = b.String()
+	res.Play = verifDumpPlay(cfg)
+	res.Story = append([]string(nil), cfg.storyLine...)
+	return res
+}
+
+// VerifCombineStoryLines exposes combineStoryLines.
+func VerifCombineStoryLines(a, b []string) []string { return combineStoryLines(a, b) }
+
+// VerifCombineActs exposes combineActs.
+func VerifCombineActs(a, b string) string { return combineActs(a, b) }
+
+// VerifValidateStoryLine exposes validateStoryLine with the given set
+// of defined scene characters.
+func VerifValidateStoryLine(scenes string, storyLine string) ([]string, string) {
+	cfg := newConfig()
+	for i := 0; i < len(scenes); i++ {
+		cfg.maybeAddSceneSpec(scenes[i : i+1])
+	}
+	st, err := cfg.validateStoryLine(storyLine)
+	if err != nil {
+		return nil, fmt.Sprintf("%v", err)
+	}
+	return st, ""
+}
+
+// VerifPreprocReplace exposes preprocReplace over the given table.
+func VerifPreprocReplace(vars map[string]string, s string) (string, string) {
+	cfg := newConfig()
+	for k, v := range vars {
+		cfg.pVars[k] = v
+	}
+	r, err := cfg.preprocReplace(s)
+	if err != nil {
+		return r, fmt.Sprintf("%v", err)
+	}
+	return r, ""
+}
+
+// VerifCollect folds the real collect function of the given mode
+// (first, last, top, bottom) over values; a value is nil, bool or float64.
+func VerifCollect(mode string, n int, values []interface{}) ([]interface{}, string) {
+	var m assignMode
+	switch mode {
+	case "first":
+		m = assignFirstN
+	case "last":
+		m = assignLastN
+	case "top":
+		m = assignTopN
+	case "bottom":
+		m = assignBottomN
+	default:
+		return nil, "unknown mode"
+	}
+	fn := collectFns[m]
+	var cur []interface{}
+	for _, v := range values {
+		next, err := fn(cur, n, v)
+		if err != nil {
+			return cur, fmt.Sprintf("%v", err)
+		}
+		cur = next
+	}
+	return cur, ""
+}
+
+// VerifCallFunction calls one of evalFunctions directly.
+func VerifCallFunction(name string, args []interface{}) (res interface{}, errS string) {
+	defer func() {
+		if r := recover(); r != nil {
+			errS = fmt.Sprintf("panic: %v", r)
+		}
+	}()
+	fn, ok := evalFunctions[name]
+	if !ok {
+		return nil, "unknown function"
+	}
+	r, err := fn(args...)
+	if err != nil {
+		return nil, fmt.Sprintf("%v", err)
+	}
+	return r, ""
+}
+
+// verifReporter is a reporter that records judgements.
+type verifReporter struct {
+	mu     sync.Mutex
+	ep     time.Time
+	min    float64
+	max    float64
+	judged []string
+	narr   []string
+	wit    []string
+}
+
+func (r *verifReporter) epoch() time.Time { return r.ep }
+func (r *verifReporter) expandTimeRange(x float64) {
+	r.mu.Lock()
+	defer r.mu.Unlock()
+	if x > r.max {
+		r.max = x
+	}
+	if x < r.min {
+		r.min = x
+	}
+}
+func (r *verifReporter) getTimeRange() (float64, float64) { return r.min, r.max }
+func (r *verifReporter) narrate(_ urgency, _, f string, a ...interface{}) {
+	r.mu.Lock()
+	defer r.mu.Unlock()
+	r.narr = append(r.narr, fmt.Sprintf(f, a...))
+}
+func (r *verifReporter) witness(_ context.Context, f string, a ...interface{}) {
+	r.mu.Lock()
+	defer r.mu.Unlock()
+	r.wit = append(r.wit, fmt.Sprintf(f, a...))
+}
+func (r *verifReporter) judge(_ context.Context, _ urgency, _, f string, a ...interface{}) {
+	r.mu.Lock()
+	defer r.mu.Unlock()
+	r.judged = append(r.judged, fmt.Sprintf(f, a...))
+}
+
+// VerifEvent is one event pushed into the audit loop.
+type VerifEvent struct {
+	// Kind is "mood", "sig" or "act".
+	Kind   string
+	Ts     float64
+	Mood   string
+	ActNum int
+	Values []VerifValue
+}
+
+// VerifValue is one sample of a signal.
+type VerifValue struct {
+	Actor string
+	Sig   string
+	// Typ is 0 event, 1 scalar, 2 delta (as sigType).
+	Typ int
+	// Val is a string (events) or a float64.
+	Val interface{}
+}
+
+// VerifAuditOut is the stream of what the audition produced.
+type VerifAuditOut struct {
+	// Events is everything sent to the collector channel, in order:
+	//   "obs <ts> <typ> <var> <val>" / "rep <ts> <auditor> <result> <output>" / "term"
+	Events []string
+	// Judged is the list of messages sent to reporter.judge, in order.
+	Judged []string
+	// Vars is the final value of every variable.
+	Vars map[string]interface{}
+	Err  string
+	// EpochOffset is the number of seconds the fake epoch lies in the past;
+	// the final round of the loop runs at about that time.
+	EpochOffset float64
+	// CollectorErr is the error returned by the real collector when
+	// WithCollector was requested; Csv the files it wrote.
+	CollectorErr string
+	Csv          map[string]string
+	Panicked     bool
+	Panic        string
+}
+
+// VerifAuditArgs configures VerifRunAudition.
+type VerifAuditArgs struct {
+	Parse  VerifParseArgs
+	Events []VerifEvent
+	// EpochOffset: the fake epoch is now - EpochOffset seconds.
+	EpochOffset float64
+	// WithCollector also runs the real collector on the stream, writing
+	// CSV files into a scratch directory that is read back and removed.
+	WithCollector bool
+	EarlyExit     bool
+}
+
+type verifRecorder struct {
+	mu  sync.Mutex
+	out []string
+	jud []string
+}
+
+func (rec *verifRecorder) addJ(s string) {
+	rec.mu.Lock()
+	rec.jud = append(rec.jud, s)
+	rec.mu.Unlock()
+}
+
+func (rec *verifRecorder) add(s string) {
+	rec.mu.Lock()
+	rec.out = append(rec.out, s)
+	rec.mu.Unlock()
+}
+
+type verifJudgeReporter struct {
+	*verifReporter
+	rec *verifRecorder
+}
+
+func (r verifJudgeReporter) judge(_ context.Context, _ urgency, _, f string, a ...interface{}) {
+	r.rec.addJ(fmt.Sprintf(f, a...))
+}
+
+func verifFmtCollectorEvent(cev collectorEvent) string {
+	switch ev := cev.(type) {
+	case terminate:
+		return "term"
+	case *observation:
+		return fmt.Sprintf("obs %v %d %q %q", ev.ts, int(ev.typ), ev.varName.String(), ev.val)
+	case *auditionReport:
+		return fmt.Sprintf("rep %v %q %d %q", ev.ts, ev.auditor, int(ev.result), ev.output)
+	case *moodChange:
+		return fmt.Sprintf("mood %v %q", ev.ts, ev.newMood)
+	case *actionReport:
+		return fmt.Sprintf("action %q %q %d", ev.actor, ev.action, int(ev.result))
+	}
+	return "?"
+}
+
+// VerifRunAudition feeds the events to the real audit loop
+// (audition.audit) built over the parsed configuration and returns what
+// it sent to the collector.
+func VerifRunAudition(a VerifAuditArgs) (res VerifAuditOut) {
+	defer func() {
+		if r := recover(); r != nil {
+			res.Panicked = true
+			res.Panic = fmt.Sprintf("%v", r)
+		}
+	}()
+	ctx := context.Background()
+	cfg, err := verifLoad(a.Parse)
+	if err != nil {
+		res.Err = "config: " + fmt.Sprintf("%v", err)
+		return res
+	}
+	cfg.earlyExit = a.EarlyExit
+	rec := &verifRecorder{}
+	base := &verifReporter{ep: time.Now().Add(-time.Duration(a.EpochOffset * float64(time.Second)))}
+	rep := verifJudgeReporter{base, rec}
+	res.EpochOffset = a.EpochOffset
+	stopper := stop.NewStopper()
+	defer stopper.Stop(ctx)
+
+	eventCh := make(chan auditableEvent, len(a.Events)+1)
+	collCh := make(chan collectorEvent, 16)
+	auRes := &auditionResults{}
+	au := audition{
+		r:       rep,
+		cfg:     cfg,
+		stopper: stopper,
+		logger:  log.NewSecondaryLogger(ctx, nil, "audit", true, false),
+		res:     auRes,
+		st:      makeAuditionState(cfg),
+		eventCh: eventCh,
+		collCh:  collCh,
+	}
+	for _, ev := range a.Events {
+		switch ev.Kind {
+		case "mood":
+			eventCh <- &moodChange{ts: ev.Ts, newMood: ev.Mood}
+		case "act":
+			eventCh <- &actChange{ts: ev.Ts, actNum: ev.ActNum}
+		case "sig":
+			se := &sigEvent{ts: ev.Ts}
+			for _, v := range ev.Values {
+				se.values = append(se.values, auditableValue{
+					typ: sigType(v.Typ), varName: varName{actorName: v.Actor, sigName: v.Sig}, val: v.Val})
+			}
+			eventCh <- se
+		}
+	}
+	eventCh <- terminate{}
+
+	var colCh chan collectorEvent
+	var colDone chan error
+	var scratch string
+	if a.WithCollector {
+		scratch, err = ioutil.TempDir("", "verif-col")
+		if err != nil {
+			res.Err = err.Error()
+			return res
+		}
+		defer os.RemoveAll(scratch)
+		cfg.dataDir = scratch
+		colCh = make(chan collectorEvent, 16)
+		colDone = make(chan error, 1)
+		col := collector{
+			r:       rep,
+			cfg:     cfg,
+			stopper: stopper,
+			st:      makeCollectorState(cfg),
+			logger:  log.NewSecondaryLogger(ctx, nil, "collector", true, false),
+			eventCh: colCh,
+		}
+		go func() { colDone <- col.collect(ctx) }()
+	}
+
+	auDone := make(chan error, 1)
+	go func() {
+		defer func() {
+			if r := recover(); r != nil {
+				auDone <- fmt.Errorf("panic: %v", r)
+				close(collCh)
+			}
+		}()
+		err := au.audit(ctx)
+		close(collCh)
+		auDone <- err
+	}()
+	colAlive := a.WithCollector
+	for cev := range collCh {
+		rec.add(verifFmtCollectorEvent(cev))
+		if colAlive {
+			select {
+			case colCh <- cev:
+				if _, ok := cev.(terminate); ok {
+					colAlive = false
+				}
+			case err := <-colDone:
+				// Collector exited early (e.g. -S).
+				colAlive = false
+				colDone <- err
+			}
+		}
+	}
+	if err := <-auDone; err != nil {
+		res.Err = fmt.Sprintf("%v", err)
+	}
+	if a.WithCollector {
+		if colAlive {
+			colCh <- terminate{}
+		}
+		if err := <-colDone; err != nil {
+			res.CollectorErr = fmt.Sprintf("%v", err)
+		}
+		res.Csv = make(map[string]string)
+		files, _ := filepath.Glob(filepath.Join(scratch, "csv", "*.csv"))
+		for _, f := range files {
+			b, _ := ioutil.ReadFile(f)
+			res.Csv[filepath.Base(f)] = string(b)
+		}
+	}
+	res.Events = rec.out
+	res.Judged = rec.jud
+	res.Vars = make(map[string]interface{})
+	for k, v := range au.st.curVals {
+		res.Vars[k] = v
+	}
+	return res
+}
+
+// VerifDetectSignals runs the real detectSignals of the given actor over
+// the lines and returns the sigEvents it emitted, one string per value:
+//
+//	"ev <ts> <typ> <actor> <sig> <val>" ; an event without values yields "ev <ts> empty".
+//
+// The epoch is fixed so that ts_now stamps can be told apart: they are
+// reported as "now".
+func VerifDetectSignals(p VerifParseArgs, actor string, lines []string, epochOffset float64) (out []string, errS string) {
+	defer func() {
+		if r := recover(); r != nil {
+			errS = fmt.Sprintf("panic: %v", r)
+		}
+	}()
+	ctx := context.Background()
+	cfg, err := verifLoad(p)
+	if err != nil {
+		return nil, "config: " + fmt.Sprintf("%v", err)
+	}
+	act, ok := cfg.actors[actor]
+	if !ok {
+		return nil, "no such actor"
+	}
+	stopper := stop.NewStopper()
+	defer stopper.Stop(ctx)
+	base := &verifReporter{ep: time.Now().Add(-time.Duration(epochOffset * float64(time.Second)))}
+	auditCh := make(chan auditableEvent, 64)
+	spm := spotMgr{
+		r:       base,
+		cfg:     cfg,
+		stopper: stopper,
+		logger:  log.NewSecondaryLogger(ctx, nil, "spotlight", true, false),
+		auditCh: auditCh,
+	}
+	for _, line := range lines {
+		before := time.Now().Sub(base.ep).Seconds()
+		spm.detectSignals(ctx, act, strings.TrimSpace(line))
+		after := time.Now().Sub(base.ep).Seconds()
+		out = append(out, "line")
+	drain:
+		for {
+			select {
+			case aev := <-auditCh:
+				ev := aev.(*sigEvent)
+				tsS := fmt.Sprintf("%v", ev.ts)
+				if ev.ts >= before && ev.ts <= after {
+					tsS = "now"
+				}
+				if len(ev.values) == 0 {
+					out = append(out, fmt.Sprintf("ev %s empty", tsS))
+				}
+				for _, v := range ev.values {
+					out = append(out, fmt.Sprintf("ev %s %d %q %q %v", tsS, int(v.typ), v.varName.actorName, v.varName.sigName, v.val))
+				}
+			default:
+				break drain
+			}
+		}
+	}
+	return out, ""
+}
+
+// VerifScripts prepares the run directory for the configuration under
+// dataDir (as run does through prepareDirs) and returns, per actor, the
+// work directory and the text of every generated script.
+func VerifScripts(p VerifParseArgs, dataDir string, subDir string) (res map[string]map[string]string, errS string) {
+	defer func() {
+		if r := recover(); r != nil {
+			errS = fmt.Sprintf("panic: %v", r)
+		}
+	}()
+	cfg, err := verifLoad(p)
+	if err != nil {
+		return nil, "config: " + fmt.Sprintf("%v", err)
+	}
+	cfg.dataDir = dataDir
+	cfg.subDir = subDir
+	if err := cfg.prepareDirs(context.Background()); err != nil {
+		return nil, fmt.Sprintf("%v", err)
+	}
+	res = make(map[string]map[string]string)
+	for name, a := range cfg.actors {
+		m := map[string]string{"workDir": a.workDir, "extraEnv": a.extraEnv, "role": a.role.name}
+		read := func(key, f string) {
+			if f == "" {
+				return
+			}
+			b, err := ioutil.ReadFile(f)
+			if err == nil {
+				m[key] = string(b)
+				m[key+"@path"] = f
+			}
+		}
+		for an, f := range a.actionScripts {
+			read("action:"+an, f)
+		}
+		read("spotlight", a.spotlightScript)
+		read("cleanup", a.cleanupScript)
+		res[name] = m
+	}
+	return res, ""
+}
